@@ -27,7 +27,7 @@ TECHNIQUE = (
     "bytes into the same structure and applies the same oracle"
 )
 RULE = (
-    "case = header SpecId Label ScanNr f1..fN Peptide with the Proteins column last or at a drawn position (N 0-8), "
+    "case = header SpecId Label ScanNr f1..fN Peptide (features may follow the peptide column; a third of the feature names resemble 'Proteins': numProteins, proteins, Proteins2, ...) with the Proteins column last or at a drawn position (N 0-8), "
     "1-12 PSM rows of non-empty blank-free tokens (one case in 16 cycles them up to a row count at or next to 64..10000, powers of two included), 1-5 proteins per row, default or custom protein separator, optional DefaultDirection second line with a "
     "drawn field count, with/without final newline. Non-trivial: some row has >=2 proteins and (the Proteins column is "
     "not last or a DefaultDirection line is present or the final newline is missing). One case in 8 is a command-line "
@@ -49,6 +49,7 @@ def budget(tier):
 
 
 token = st.text(alphabet=TOKEN_ALPHABET, min_size=1, max_size=8)
+LOOKALIKE = ["numProteins", "lnNumProteins", "proteins", "PROTEINS", "Proteins2", "ProteinsShared", "nProteins", "Protein", "xProteins"]
 # characters that str.splitlines() (but not line-wise reading of a text file) treats as line boundaries; only *inside* a field,
 # never at its ends (str.strip() would take them for blanks there)
 EXOTIC = "\x0b\x0c\x1c\x1d\x1e\x85\u2028\u2029"
@@ -60,8 +61,11 @@ field = st.one_of(token, token, token, token, token, token, token, exotic_token)
 @st.composite
 def _case(draw, tier):
     nfeat = draw(st.integers(0, 8))
-    feats = draw(st.lists(token.filter(lambda t: t != "Proteins"), min_size=nfeat, max_size=nfeat))
-    base = ["SpecId", "Label", "ScanNr"] + feats + ["Peptide"]
+    # feature names: arbitrary tokens, and names that merely resemble the protein column's ("Proteins" is matched exactly)
+    feats = draw(st.lists(st.one_of(token.filter(lambda t: t != "Proteins"), token.filter(lambda t: t != "Proteins"),
+                                    st.sampled_from(LOOKALIKE)), min_size=nfeat, max_size=nfeat))
+    kpep = nfeat if draw(st.booleans()) else draw(st.integers(0, nfeat))  # the peptide column need not be the last one
+    base = ["SpecId", "Label", "ScanNr"] + feats[:kpep] + ["Peptide"] + feats[kpep:]
     pos = len(base) if draw(st.integers(0, 2)) else draw(st.integers(0, len(base)))
     nrows = draw(st.integers(1, 12))
     rows = []
